@@ -1176,20 +1176,20 @@ class C05(Check):
         '(++ layout); redis cannot run here',
         'pysasl.entry_points (package metadata lookup on every new '
         'connection) is memoized in the worker for speed']
-    floors = {'steps_judged': 15000, 'states_revealed': 14000,
-              'refusals_checked_no_effect': 8000, 'probe_runs': 15000,
-              'state_symbol_pairs': 900, 'glass_comparisons': 10000,
-              'logouts_checked': 100}
+    floors = {'steps_judged': 8000, 'states_revealed': 8000,
+              'refusals_checked_no_effect': 5000, 'probe_runs': 8000,
+              'state_symbol_pairs': 600, 'glass_comparisons': 6000,
+              'logouts_checked': 60}
     time_cap = {'quick': 150.0, 'thorough': 1500.0}
 
     def cases(self, tier: str, seed: int) -> Iterable[dict[str, Any]]:
         n = len(ALPHABET)
         floors = dict(C05.floors)
         quick = tier == 'quick'
-        exh2 = ['dict', 'dict-tls-remote'] if quick else list(CONFIGS)
+        exh2 = ['dict'] if quick else list(CONFIGS)
         floors['exhaustive_len1_sequences'] = n * len(exh2)
         floors['exhaustive_len2_sequences'] = n * n * len(exh2)
-        floors['random_sequences'] = 700 if quick else 4000
+        floors['random_sequences'] = 400 if quick else 4000
         floors['state_symbol_pairs'] = \
             (2 if quick else len(CONFIGS)) * N_CANONICAL * n * 9 // 10
         if not quick:
@@ -1213,7 +1213,7 @@ class C05(Check):
                     out.append({'kind': 'exh', 'config': 'dict',
                                 'prefix': [a, b]})
         rng = random.Random(seed * 9157 + 5)
-        want = 1400 if quick else 8000
+        want = 800 if quick else 8000
         seen: set[tuple[str, ...]] = set()
         rnd: list[dict[str, Any]] = []
         while len(rnd) < want:
